@@ -379,9 +379,15 @@ func (c *c41) oracle(r *part, blk uint32) {
 			c.quorumFail("endorse-done", r, blk, decision{p, false, true}, mod)
 		}
 	}
-	for _, d := range c.commitReach(r, blk, v) {
-		if !mod.committedOK(d.p, d.fe, C, N, lvStrict) {
-			c.quorumFail("commit-done", r, blk, d, mod)
+	// The Server evaluates commitDone when a commit message arrives (service.go:1390), at the
+	// commit timeout of a node that has committed (1822-1851) and when a round starts with
+	// stored commit messages (705): the commit decision is checked in exactly those states.
+	commitEvaluable := len(v.commits) > 0 || r.vn.CommittedForBlock(blk)
+	if commitEvaluable {
+		for _, d := range c.commitReach(r, blk, v) {
+			if !mod.committedOK(d.p, d.fe, C, N, lvStrict) {
+				c.quorumFail("commit-done", r, blk, d, mod)
+			}
 		}
 	}
 	if empties > C {
@@ -407,7 +413,11 @@ func (c *c41) oracle(r *part, blk uint32) {
 			}
 		}
 	}
-	cd, cok := c.commitAnswer(r, blk, v)
+	var cd decision
+	cok := false
+	if commitEvaluable {
+		cd, cok = c.commitAnswer(r, blk, v)
+	}
 	if cok && cd.done {
 		if !mod.committedOK(cd.p, cd.fe, C, N, lvStrict) {
 			c.quorumFail("commit-done", r, blk, cd, mod)
@@ -444,5 +454,3 @@ func (c *c41) quorumFail(what string, r *part, blk uint32, d decision, mod *roun
 		r.idx, blk, d.p, d.fe, C, N, setStr(mod.supporters(d.p, d.fe, lvStrict, true)), N-(N-1)/3-1, setStr(mod.supporters(d.p, d.fe, lvStrict, false)), N-1-C,
 		setStr(mod.supporters(d.p, d.fe, lvClaimed, true)), setStr(mod.supporters(d.p, d.fe, lvClaimed, false)), setStr(mod.anyEmpty(false)))
 }
-
-var _ = math.MaxUint32
